@@ -12,6 +12,8 @@ PROP = dict(
         dict(module="MCCodecs", cfg="MCCodecs_mut_pooled.cfg", expect_violation="PropertyHolds", timeout=300),
         # non-vacuity of the error-identity dimension: taking io.ErrUnexpectedEOF for the end of the stream must violate
         dict(module="MCCodecs", cfg="MCCodecs_mut_ueof.cfg", expect_violation="PropertyHolds", timeout=300),
+        # non-vacuity of the source-reuse steps: taking a *bytes.Buffer reader's bytes without copying must violate
+        dict(module="MCCodecs", cfg="MCCodecs_mut_zerocopy.cfg", expect_violation="PropertyHolds", timeout=300),
     ],
     gen=dict(module="GenCodecs", cfg=dict(quick="GenCodecs_quick.cfg", thorough="GenCodecs_thorough.cfg"),
              workers=1, timeout=1500),
@@ -34,7 +36,8 @@ PROP = dict(
     trace=dict(module="TraceCodecs", cfg="TraceCodecs.cfg"),
     rule="case = one codec call: (consume) reader script x reader kind x ClosesStream x destination kind x pre-population x "
          "writer limit / unmarshal error; (produce) source kind x delivery script x writer kind x writer limit x ClosesStream x "
-         "marshal error; (seq) a history of 2..3 (seeded: up to 12) ByteStreamConsumer calls and caller-side changes of stored []byte values, all "
+         "marshal error; (seq) a history of 2..3 (seeded: up to 12) ByteStreamConsumer calls - reader a scripted stream, *bytes.Buffer, *bytes.Reader or "
+         "*strings.Reader -, caller-side changes of stored []byte values and re-use of the sources afterwards, all "
          "destinations re-read after every step; (rt) codec x abstract value (incl. typed JSON destinations with interface{} positions "
          "holding numbers beyond float64) x feeding pattern (whole / 1 / 7 byte chunks, zero-length reads, data+EOF) x "
          "document cut + read error x failing writer. Exhaustive part: all configurations exported by TLC (GenCodecs: contents "
